@@ -48,6 +48,10 @@ CLAIMED = {
  'C15': dict(
   text="Coq theorems over SEval's variable resolution: a variable bound to a literal resolves to exactly that literal in every state and leaves the state alone; the bare query %v returns what the variable resolves to, unchanged and in order (so a right-hand side %v and the literal itself are the same value list); a memoised variable is returned as stored - every reference sees the same value; an unused definition changes no lookup of any other name (an equality of computations, so it holds also when evaluating it would be an error: laziness); inner definitions shadow outer ones; an outer variable is looked up and evaluated in the scope that defines it; value scopes define nothing; inside f(args) a parameter is exactly the value list its argument evaluated to. PARTIAL: that memoisation is invisible in the verdicts of whole programs (the SEval->PEval bridge) is not proved; it is carried by the monitor: on the implementation every generated program is compared with its abstracted forms - right-hand literal/query bound to %v at block, rule and file level, left-hand query bound to a variable (except the documented emptiness test), unused variables (also erroring ones) added at every level, literal variables inlined, parameterised calls replaced by their body. Tie: SEval vs implementation on the same programs (status, error kind, record tree).",
   note="tie = hook eval_dump + python glue."),
+ 'C01': dict(
+  text="PARTIAL. Spec.v is an independent, stateless reading of the documented semantics of the core language written in Gallina (no scope stack with memo, no rule-status cache, no records; a variable is re-derived at every use, a named rule at every reference; outside the fragment it answers 'not covered', never a verdict). The full refinement statement (the model of the implementation refines Spec on the core fragment) is kept visible as C01_full_statement and is NOT proved. Proved in Coq (the `_partial` theorems): for every comparison operator, both polarities and any right-hand side an unresolved left-hand value is reported as such and yields a FAIL check (negation never turns it into a success); an unresolved value is `empty` and `not exists` under both spellings of the negation; a comparison over an empty selection is skipped and a block over an empty selection is SKIP (FAIL when written !empty); `empty` on a number or null is an evaluation error; the all/some aggregation laws; and the same sentences hold of Spec. The refinement is checked on every run: Spec is evaluated by Coq (vm_compute) on the AST the implementation parsed and the value it loaded, and its verdict table - every rule, the file, or 'undefined' - must equal what the implementation reports, on generated programs of the core fragment x documents and on the enumeration of all single-clause programs over a fixed query/operator/literal/document universe (exhaustive in the thorough tier, a seeded sample in quick). Tie of the implementation model: SEval vs implementation (status, error kind, record tree) on the same programs.",
+  note="tie = hook eval_dump + python glue + fancy_regex oracle table. The Spec differential found a genuine defect (list `not in` list-of-lists), repaired in /repo; the undocumented case-converter key fallback is a recorded finding (KNOWN-FINDING line on every run).",
+  technique="machine-checked proof in Coq of the statement's sentences over the model + an independent executable semantics in Gallina evaluated by Coq against the implementation's verdicts (differential; not a proof of refinement)"),
 }
 
 NOT_CLAIMED = {}
